@@ -365,6 +365,11 @@ def stmt_node(cfg, expr_or_stmt):
     raise AnalysisError("expression not inside the function's CFG")
 
 
+RESOLVER = None      # set by core.Ctx: (dotted name, call node, enclosing func node) -> FunctionDef | None
+OPAQUE = None        # dotted name -> bool (a repo function we could not follow)
+_ipdepth = [0]
+
+
 def provenance(func_node, expr, max_depth=12, control=None):
     """
     Source atoms the value of ``expr`` (evaluated where it stands) derives
@@ -428,6 +433,40 @@ def provenance(func_node, expr, max_depth=12, control=None):
             from .srcmodel import dotted
             nm = dotted(e.func) or (f"<expr>.{e.func.attr}" if isinstance(e.func, ast.Attribute) else '<call>')
             out.add(('call', nm, e))
+            callee = RESOLVER(nm, e, func_node) if RESOLVER and depth < max_depth - 2 else None
+            if callee is not None and callee is not func_node and _ipdepth[0] < 3:
+                # follow the value through a local / module-level helper:
+                # provenance of its returns, parameters mapped to arguments
+                _ipdepth[0] += 1
+                try:
+                    a = callee.args
+                    pnames = [x.arg for x in a.posonlyargs + a.args]
+                    if pnames and pnames[0] in ('self', 'cls') and isinstance(e.func, ast.Attribute):
+                        pnames = pnames[1:]
+                    amap = {}
+                    for pn, arg in zip(pnames, e.args):
+                        amap[pn] = arg
+                    for k in e.keywords:
+                        if k.arg:
+                            amap[k.arg] = k.value
+                    for r in ast.walk(callee):
+                        if isinstance(r, ast.Return) and r.value is not None:
+                            f = r
+                            while f is not None and not isinstance(f, (ast.FunctionDef, ast.AsyncFunctionDef, ast.Lambda)):
+                                f = parent(f)
+                            if f is not callee:
+                                continue
+                            for atom in provenance(callee, r.value, max_depth=max_depth, control=control):
+                                if atom[0] == 'param' and atom[1] in amap:
+                                    visit(amap[atom[1]], at_node, depth + 1)
+                                elif atom[0] == 'param':
+                                    pass
+                                else:
+                                    out.add(atom)
+                finally:
+                    _ipdepth[0] -= 1
+            elif callee is None and RESOLVER and OPAQUE and OPAQUE(nm):
+                out.add(('opaque', nm))
             if isinstance(e.func, ast.Attribute):
                 visit(e.func.value, at_node, depth + 1)
             for a in e.args:
@@ -473,6 +512,10 @@ def _is_sentinel(val):
 
 def prov_calls(prov):
     return {p[1] for p in prov if p[0] == 'call'}
+
+
+def prov_opaque(prov):
+    return {p[1] for p in prov if p[0] == 'opaque'}
 
 
 def prov_params(prov):
